@@ -20,6 +20,10 @@ func TestMain(m *testing.M) { ev.Main(m, "C09") }
 type Case struct {
 	PeerPre []dst.Op `json:"peer_pre"` // performed on peer P (id 2) first; its gossip reaches A and B
 	Ops     []dst.Op `json:"ops"`      // performed on A (id 1)
+	// DrainEvery: A's transmit queue is drained (and handed to B in the order the queue gives
+	// the broadcasts out — not FIFO) after every k-th operation and at the end; 0/1 = after every
+	// operation. A and B are compared at the drain points.
+	DrainEvery int `json:"drain_every,omitempty"`
 }
 
 func run(c Case) (msg string, nontrivial bool) {
@@ -54,6 +58,13 @@ func run(c Case) (msg string, nontrivial bool) {
 		if len(touched) >= 2 {
 			nontrivial = true
 		}
+		va0 := dst.ViewOf(a)
+		if d := dst.Diff("A", va0, "model", sem.View()); d != "" {
+			return fmt.Sprintf("step %d (%s): origin vs. operation semantics: %s", i, op.Op, d), nontrivial
+		}
+		if c.DrainEvery > 1 && (i+1)%c.DrainEvery != 0 && i != len(c.Ops)-1 {
+			continue // broadcasts stay queued
+		}
 		msgs := a.Drain()
 		named := map[string]bool{}
 		for _, m := range msgs {
@@ -76,6 +87,9 @@ func run(c Case) (msg string, nontrivial bool) {
 				what = " (the operation changed A but queued no broadcast)"
 			}
 			return fmt.Sprintf("step %d (%s)%s: %s", i, op.Op, what, d), nontrivial
+		}
+		if c.DrainEvery > 1 {
+			continue // per-operation attribution of broadcasts only when every operation is drained
 		}
 		for _, k := range touched {
 			if !named[k] {
@@ -117,6 +131,7 @@ func TestRandom(t *testing.T) {
 		for i := 0; i < n; i++ {
 			c.Ops = append(c.Ops, dst.GenOp(t, 4, 4, 4, []uint64{1, 2}, true))
 		}
+		c.DrainEvery = rapid.SampledFrom([]int{1, 1, 2, 3, 5, 1000}).Draw(t, "drainEvery")
 		check(t, c)
 	})
 }
